@@ -20,6 +20,7 @@ ops:  cfg <0|1> <0|1> <0|1> <0|1>   (unionOldExpanded literalTypeStrict tgOnly e
       strict <id> <0|1>                switch its flag, no output
       setval <id> value                `channel.value = v`        -> setval ok | rejected
       link <via> <s> <r>               make the link              -> link ok | refused | REC | receiver-rejects
+      relink <via> <s> <r>             replace_child re-forging a value link (validated, value pushed if taken) -> link ok | refused | REC
       push <via> <s> <r> value         send a value over the link -> push ok | sender-rejects | receiver-rejects | no-link
       links                            -> links <via>:<s>><r> ... (newest first)
 -/
@@ -205,6 +206,12 @@ def step (st : St) (ws : List String) : St × List String :=
     match parseVia v, s.toNat?, r.toNat? with
     | some via, some s, some r =>
       let (n, o) := st.net.link st.cfg via s r
+      ({ st with net := n }, ["link " ++ showOutcome o])
+    | _, _, _ => (st, ["bad-op"])
+  | ["relink", v, s, r] =>
+    match parseVia v, s.toNat?, r.toNat? with
+    | some via, some s, some r =>
+      let (n, o) := st.net.relink st.cfg via s r
       ({ st with net := n }, ["link " ++ showOutcome o])
     | _, _, _ => (st, ["bad-op"])
   | "push" :: v :: s :: r :: ws =>
